@@ -1,6 +1,9 @@
 //! The systems under test (the three scanners) behind one uniform, recording interface.
+//! Built in every configuration of the harness; without helgoboss-midi's `std` feature the polling
+//! scanner does not exist and the other two are driven alone.
 //! No oracle logic lives here: calls are made, results are projected through the public
 //! accessors and written down.
+#![cfg_attr(not(feature = "std"), allow(dead_code, unused_variables))]
 use crate::alloc::guarded;
 use core::time::Duration;
 use helgoboss_midi::*;
@@ -11,6 +14,7 @@ pub use crate::basics::{cc14_report, pn_report, Foreign};
 pub enum Scanner {
     Cc14(ControlChange14BitMessageScanner),
     Pn(ParameterNumberMessageScanner),
+    #[cfg(feature = "std")]
     Poll(PollingParameterNumberMessageScanner),
 }
 
@@ -68,6 +72,7 @@ impl Inst {
             } else {
                 ParameterNumberMessageScanner::new()
             }),
+            #[cfg(feature = "std")]
             "poll" => Scanner::Poll(if via_default {
                 Default::default()
             } else {
@@ -82,11 +87,12 @@ impl Inst {
     #[allow(clippy::clone_on_copy)]
     pub fn cloned(&self) -> Inst {
         // whatever the code under test reads from the clock while cloning is this instance's time
-        #[cfg(helgoboss_midi_verif)]
+        #[cfg(all(helgoboss_midi_verif, feature = "std"))]
         verif_hooks::set_now(self.now);
         let sc = match &self.sc {
             Scanner::Cc14(s) => Scanner::Cc14(Clone::clone(s)),
             Scanner::Pn(s) => Scanner::Pn(Clone::clone(s)),
+            #[cfg(feature = "std")]
             Scanner::Poll(s) => Scanner::Poll(Clone::clone(s)),
         };
         Inst { sc, ..*self }
@@ -96,12 +102,13 @@ impl Inst {
         match self.sc {
             Scanner::Cc14(_) => "cc14",
             Scanner::Pn(_) => "pn",
+            #[cfg(feature = "std")]
             Scanner::Poll(_) => "poll",
         }
     }
 
     fn feed_generic<M: ShortMessage>(&mut self, msg: &M) -> CallResult {
-        #[cfg(helgoboss_midi_verif)]
+        #[cfg(all(helgoboss_midi_verif, feature = "std"))]
         verif_hooks::set_now(self.now);
         match &mut self.sc {
             Scanner::Cc14(s) => {
@@ -128,6 +135,7 @@ impl Inst {
                     None => CallResult { out: vec![], gap: false, allocs, panicked: true },
                 }
             }
+            #[cfg(feature = "std")]
             Scanner::Poll(s) => {
                 let (r, allocs) = guarded(|| s.feed(msg));
                 match r {
@@ -171,9 +179,10 @@ impl Inst {
     }
 
     pub fn poll(&mut self, ch: u8) -> CallResult {
-        #[cfg(helgoboss_midi_verif)]
+        #[cfg(all(helgoboss_midi_verif, feature = "std"))]
         verif_hooks::set_now(self.now);
         match &mut self.sc {
+            #[cfg(feature = "std")]
             Scanner::Poll(s) => {
                 let c = Channel::new(ch);
                 let (r, allocs) = guarded(|| s.poll(c));
@@ -192,11 +201,12 @@ impl Inst {
     }
 
     pub fn reset(&mut self) -> CallResult {
-        #[cfg(helgoboss_midi_verif)]
+        #[cfg(all(helgoboss_midi_verif, feature = "std"))]
         verif_hooks::set_now(self.now);
         let (r, allocs) = match &mut self.sc {
             Scanner::Cc14(s) => guarded(|| s.reset()),
             Scanner::Pn(s) => guarded(|| s.reset()),
+            #[cfg(feature = "std")]
             Scanner::Poll(s) => guarded(|| s.reset()),
         };
         CallResult { out: vec![], gap: false, allocs, panicked: r.is_none() }
@@ -204,7 +214,7 @@ impl Inst {
 
     /// `self == new(same timeout)` through the public PartialEq.
     pub fn eq_new(&self) -> bool {
-        #[cfg(helgoboss_midi_verif)]
+        #[cfg(all(helgoboss_midi_verif, feature = "std"))]
         verif_hooks::set_now(self.now);
         let fresh = Inst::new(self.kind(), self.to, false);
         self.sc == fresh.sc
@@ -221,8 +231,9 @@ impl Inst {
             out.push_str(&rest[..i]);
             let tail = &rest[i + 8..];
             let j = tail.find(')').unwrap();
-            let t: u64 = tail[..j].parse().unwrap();
-            let age = self.now.saturating_sub(t).min(cap);
+            // the mock prints nanoseconds
+            let t: u128 = tail[..j].parse().unwrap();
+            let age = self.now.saturating_sub((t / 1_000_000) as u64).min(cap);
             out.push_str(&format!("Age({age})"));
             rest = &tail[j + 1..];
         }
